@@ -163,6 +163,7 @@ class Engine:
         self.ext_pairs = []
         self.paths_ended = []
         self.bound_vars = set()
+        self.side_goals = []
 
     # ============================================================ schema helpers
     def mro(self, cls):
@@ -758,7 +759,12 @@ class Engine:
     def spec_goal(self, st, src, env, old=None):
         """like spec_bool, for a formula that is to be proved (positive foralls skolemised)"""
         node = ast.parse(src, mode='eval').body if isinstance(src, str) else src
-        return self.truth(st, SpecEval(self, st, env, old, goal=True).ev(node))
+        self.side_goals = []
+        g = self.truth(st, SpecEval(self, st, env, old, goal=True).ev(node))
+        for h, text in self.side_goals:
+            self.add_obligation(st, 'lemma-instance', 'lemma instance: ' + text[:80], h, text)
+        self.side_goals = []
+        return g
 
     # ------------------------------------------------------------ cheap feasibility pruning
     def feasible(self, st, cond):
